@@ -280,10 +280,10 @@ impl Sender {
     pub async fn send(&mut self, mut data: Bytes) -> Result<(), SendError> {
         if data.is_empty() {
             let mut credits = self.credits.request(1, 1).await?;
-            credits.take(1);
 
             let msg = PortEvt::SendData { remote_port: self.remote_port, data, first: true, last: true };
             self.tx.send(msg).await?;
+            credits.take(1);
         } else {
             let mut first = true;
             let mut credits = AssignedCredits::default();
@@ -295,8 +295,7 @@ impl Sender {
 
                 let at = data.len().min(self.chunk_size).min(credits.available() as usize);
                 let chunk = data.split_to(at);
-
-                credits.take(chunk.len() as u32);
+                let chunk_credits = chunk.len() as u32;
 
                 let msg = PortEvt::SendData {
                     remote_port: self.remote_port,
@@ -305,6 +304,7 @@ impl Sender {
                     last: data.is_empty(),
                 };
                 self.tx.send(msg).await?;
+                credits.take(chunk_credits);
 
                 first = false;
             }
@@ -329,9 +329,9 @@ impl Sender {
         if data.is_empty() {
             match self.credits.try_request(1)? {
                 Some(mut credits) => {
-                    credits.take(1);
                     let msg = PortEvt::SendData { remote_port: self.remote_port, data, first: true, last: true };
                     self.tx.try_send(msg)?;
+                    credits.take(1);
                     Ok(())
                 }
                 None => Err(TrySendError::Full),
@@ -343,8 +343,7 @@ impl Sender {
                     while !data.is_empty() {
                         let at = data.len().min(self.chunk_size);
                         let chunk = data.split_to(at);
-
-                        credits.take(chunk.len() as u32);
+                        let chunk_credits = chunk.len() as u32;
 
                         let msg = PortEvt::SendData {
                             remote_port: self.remote_port,
@@ -353,6 +352,7 @@ impl Sender {
                             last: data.is_empty(),
                         };
                         self.tx.try_send(msg)?;
+                        credits.take(chunk_credits);
 
                         first = false;
                     }
@@ -410,7 +410,7 @@ impl Sender {
             let next =
                 if ports_response.len() > max_ports { ports_response.split_off(max_ports) } else { Vec::new() };
 
-            credits.take((ports_response.len() * size_of::<u32>()) as u32);
+            let ports_credits = (ports_response.len() * size_of::<u32>()) as u32;
 
             let msg = PortEvt::SendPorts {
                 remote_port: self.remote_port,
@@ -420,6 +420,7 @@ impl Sender {
                 ports: ports_response,
             };
             self.tx.send(msg).await?;
+            credits.take(ports_credits);
 
             ports_response = next;
             first = false;
@@ -494,11 +495,10 @@ impl<'a> ChunkSender<'a> {
             if self.credits.is_empty() {
                 self.credits = self.sender.credits.request(1, 1).await?;
             }
-            self.credits.take(1);
-
             let msg =
                 PortEvt::SendData { remote_port: self.sender.remote_port, data, first: self.first, last: finish };
             self.sender.tx.send(msg).await?;
+            self.credits.take(1);
 
             self.first = false;
         } else {
@@ -510,8 +510,7 @@ impl<'a> ChunkSender<'a> {
 
                 let at = data.len().min(self.sender.chunk_size).min(self.credits.available() as usize);
                 let chunk = data.split_to(at);
-
-                self.credits.take(chunk.len() as u32);
+                let chunk_credits = chunk.len() as u32;
 
                 let msg = PortEvt::SendData {
                     remote_port: self.sender.remote_port,
@@ -520,6 +519,7 @@ impl<'a> ChunkSender<'a> {
                     last: data.is_empty() && finish,
                 };
                 self.sender.tx.send(msg).await?;
+                self.credits.take(chunk_credits);
 
                 self.first = false;
             }
